@@ -11,5 +11,6 @@ TECHNIQUE = {
     'C03': 'static writer/reader agreement: header tables vs specification, header typing by path enumeration of _marshal, flag and padding expressions evaluated by constant folding over their finite domains, constructor validation on all paths',
     'C04': 'static non-interference check: path enumeration of dataReceived in both modes (chunk-use discipline, dominance of header reads, layout offsets from the specification, length expression evaluated by constant folding, drain/recursion shape, mode-switch typestate)',
     'C10': 'static proof over all control-flow paths of the dispatcher: reply-count dataflow, addressing of every reply construction, guard dominance before user code, callback registration order',
+    'C18': 'static decision procedure: validator AST translated to DFAs over a symbolic alphabet (regexes via re._parser), language inclusion both ways against the specification grammar with shortest witnesses',
     'C02': 'static conformance check of the extracted codec model against specification tables; padding function interpreted in the congruence domain mod 8',
 }
